@@ -30,12 +30,16 @@ pub enum Sk {
     MutTmpFile,
     Vec,
     BoxDyn,
+    BoxDynSend,
+    BoxDynSendSync,
     Stdout,
     Stderr,
     StdoutLock,
     StderrLock,
 }
-const ALL_SK: [Sk; 10] = [
+const ALL_SK: [Sk; 12] = [
+    Sk::BoxDynSend,
+    Sk::BoxDynSendSync,
     Sk::PtyFile,
     Sk::TmpFile,
     Sk::MutPtyFile,
@@ -56,6 +60,8 @@ fn sk_name(s: Sk) -> &'static str {
         Sk::MutTmpFile => "mut_file_on_disk",
         Sk::Vec => "vec",
         Sk::BoxDyn => "box_dyn_write",
+        Sk::BoxDynSend => "box_dyn_write_send",
+        Sk::BoxDynSendSync => "box_dyn_write_send_sync",
         Sk::Stdout => "stdout",
         Sk::Stderr => "stderr",
         Sk::StdoutLock => "stdout_lock",
@@ -125,7 +131,7 @@ impl Model {
     fn is_tty(&self, s: Sk) -> bool {
         match s {
             Sk::PtyFile | Sk::MutPtyFile => true,
-            Sk::TmpFile | Sk::MutTmpFile | Sk::Vec | Sk::BoxDyn => false,
+            Sk::TmpFile | Sk::MutTmpFile | Sk::Vec | Sk::BoxDyn | Sk::BoxDynSend | Sk::BoxDynSendSync => false,
             Sk::Stdout | Sk::StdoutLock => self.fd_tty[0],
             Sk::Stderr | Sk::StderrLock => self.fd_tty[1],
         }
@@ -311,6 +317,14 @@ fn with_stream<R>(fds: &Fds, sk: Sk, f: &mut dyn FnMut(&mut dyn ErasedRaw) -> R)
         Sk::Vec => f(&mut Holder(Some(Vec::<u8>::new()))),
         Sk::BoxDyn => {
             let b: Box<dyn Write> = Box::new(Vec::<u8>::new());
+            f(&mut Holder(Some(b)))
+        }
+        Sk::BoxDynSend => {
+            let b: Box<dyn Write + Send> = Box::new(Vec::<u8>::new());
+            f(&mut Holder(Some(b)))
+        }
+        Sk::BoxDynSendSync => {
+            let b: Box<dyn Write + Send + Sync> = Box::new(Vec::<u8>::new());
             f(&mut Holder(Some(b)))
         }
         Sk::Stdout => f(&mut Holder(Some(std::io::stdout()))),
@@ -1095,7 +1109,7 @@ fn sweep(child: &mut Child, seed: u64) -> (u64, Option<(Vec<EOp>, EViolation)>) 
         let kinds: &[Sk] = if tty {
             &[Sk::PtyFile, Sk::MutPtyFile, Sk::Stdout, Sk::Stderr, Sk::StdoutLock, Sk::StderrLock]
         } else {
-            &[Sk::TmpFile, Sk::MutTmpFile, Sk::Vec, Sk::BoxDyn, Sk::Stdout, Sk::Stderr, Sk::StdoutLock, Sk::StderrLock]
+            &[Sk::TmpFile, Sk::MutTmpFile, Sk::Vec, Sk::BoxDyn, Sk::BoxDynSend, Sk::BoxDynSendSync, Sk::Stdout, Sk::Stderr, Sk::StdoutLock, Sk::StderrLock]
         };
         for k in kinds {
             ops.push(EOp::Choice(*k));
